@@ -38,7 +38,37 @@ impl<D> Stores<D> {
     #[verifier::external_body] pub fn routing_mut(&mut self) -> &mut routing::Store { unimplemented!() }
     #[verifier::external_body] pub fn routing(&self) -> &routing::Store { unimplemented!() }
 }
-pub trait ReadStorage { fn contains(&self, rid: &RepoId) -> Result<bool, StorageError>; }
+pub struct Repo;
+pub struct RefsAtError; impl From<RefsAtError> for Error { #[verifier::external_body] fn from(e: RefsAtError) -> Self { unimplemented!() } }
+#[derive(Clone, Copy)] pub struct RefsAt { pub remote: NodeId }
+impl RefsAt { #[verifier::external_body] pub fn new(repo: &Repo, remote: NodeId) -> Result<RefsAt, RefsAtError> { unimplemented!() } }
+pub const REF_REMOTE_LIMIT: usize = 1024;
+/// stand-in for radicle_node::bounded::BoundedVec (under contract in unit wire_codec)
+pub struct BoundedVec<T, const N: usize> { pub v: Vec<T> }
+impl<T, const N: usize> BoundedVec<T, N> {
+    #[verifier::external_body] pub fn new() -> Self { unimplemented!() }
+    #[verifier::external_body] pub fn push(&mut self, x: T) -> Result<(), ()> { unimplemented!() }
+}
+impl<T: Clone, const N: usize> Clone for BoundedVec<T, N> { #[verifier::external_body] fn clone(&self) -> Self { unimplemented!() } }
+impl<T, const N: usize> From<BoundedVec<T, N>> for Vec<T> { #[verifier::external_body] fn from(b: BoundedVec<T, N>) -> Self { unimplemented!() } }
+pub struct RefsAnnouncement { pub rid: RepoId, pub refs: BoundedVec<RefsAt, REF_REMOTE_LIMIT>, pub timestamp: Timestamp }
+pub enum AnnouncementMessage { Refs(RefsAnnouncement), Other(Timestamp) }
+impl From<RefsAnnouncement> for AnnouncementMessage { fn from(r: RefsAnnouncement) -> (m: AnnouncementMessage) ensures m == AnnouncementMessage::Refs(r) { AnnouncementMessage::Refs(r) } }
+impl vstd::std_specs::convert::FromSpecImpl<RefsAnnouncement> for AnnouncementMessage { open spec fn obeys_from_spec() -> bool { true } open spec fn from_spec(r: RefsAnnouncement) -> AnnouncementMessage { AnnouncementMessage::Refs(r) } }
+pub struct Announcement;
+impl AnnouncementMessage {
+    pub open spec fn ts(self) -> Timestamp { match self { AnnouncementMessage::Refs(r) => r.timestamp, AnnouncementMessage::Other(t) => t } }
+    /// SINK (C29): signs the message. `last` is the timestamp Service::timestamp issued last (ghost argument added at the call site).
+    #[verifier::external_body]
+    pub fn vx_signed<G>(self, signer: &Device<G>, Ghost(last): Ghost<Timestamp>) -> Announcement
+        requires self.ts() == last   //[C29]
+    { unimplemented!() }
+}
+pub struct VxIds { pub opaque: u8 }
+impl VxIds { #[verifier::external_body] pub fn next(&mut self) -> Option<NodeId> { unimplemented!() } }
+/// stand-in for `remotes.into_iter()`
+#[verifier::external_body] pub fn vx_ids(v: Vec<NodeId>) -> VxIds { unimplemented!() }
+pub trait ReadStorage { fn contains(&self, rid: &RepoId) -> Result<bool, StorageError>; fn repository(&self, rid: RepoId) -> Result<Repo, StorageError>; }
 pub struct InventoryAnnouncement { pub timestamp: Timestamp }
 pub mod gossip {
     use vstd::prelude::*;
@@ -119,6 +149,17 @@ impl vstd::std_specs::convert::FromSpecImpl<LocalTime> for Timestamp {
 //@    fn inventory
 //@      desugar_try
 //@      body_sub (?s)self\.db\s*\.routing\(\)\s*\.get_inventory\(self\.nid\(\)\)\s*\.map_err\(Error::from\) => self.db.routing().get_inventory(self.nid()).map_err(|e| -> (o: Error) { Error::from(e) })
+//@    fn refs_announcement_for
+//@      attr #[verifier::exec_allows_no_decreases_clause]
+//@      attr #[verifier::loop_isolation(false)]
+//@      desugar_try
+//@      desugar_for
+//@      sig remotes: impl IntoIterator<Item = NodeId>, => remotes: Vec<NodeId>,
+//@      body_sub remotes\.into_iter\(\) => vx_ids(remotes)
+//@      # the ghost argument names the timestamp issued last; the sink requires the message to carry exactly it
+//@      body_sub msg\.signed\(&self\.signer\) => msg.vx_signed(&self.signer, Ghost(self.last_timestamp))
+//@      requires
+//@        old(self).last_timestamp.ms() < u64::MAX
 //@    fn refresh_and_announce_inventory
 //@      desugar_try
 //@      requires
